@@ -269,3 +269,15 @@ func TestVerifC08RegressionsScale(t *testing.T) {
 		},
 	})
 }
+
+func TestVerifC09Exhaustive(t *testing.T) {
+	vs.RunExhaustive(t, "C09", 3_000_000, func(c *vs.Case) error {
+		return vw.PropC09(c, compositeFactory, vw.RolloutOpts{MaxChildren: 2, Small: true})
+	})
+}
+
+func TestVerifC09Random(t *testing.T) {
+	vs.Run(t, "C09", func(c *vs.Case) error {
+		return vw.PropC09(c, compositeFactory, vw.RolloutOpts{MaxChildren: 4, Scale: true})
+	})
+}
